@@ -67,12 +67,11 @@ namespace c04 {
     if (std::is_floating_point<C>::value && (std::is_integral<T>::value))
       cb = Gen<T>::BITS - 2 < 20 ? Gen<T>::BITS - 2 : 20;  // compound into an integer through a float
     if (op == MUL)
-      return cb / 2 > 1 ? cb / 2 - (cb % 2 ? 0 : 0) : 1;
+      return cb / 2 > 1 ? cb / 2 : 1;
     if (op == ADD || op == SUB)
       return cb - 2 > 1 ? cb - 2 : 1;
     return cb;
   }
-  template <typename T> struct GenBits { enum { value = 20 }; };
 
   // component pairs (a[i], b[i]) all safe for OP (binary or compound form), both arrays distinct
   template <typename T, typename U, int OP, bool COMPOUND>
@@ -314,7 +313,7 @@ namespace c04 {
         ref[i] = (T)ap(Op<OP>(), a[i], b[i]);
       C04_CHECK_VEC(VR, tr, k, ap(Op<OP>(), va, vb), ref, SA::N, "a", a, SA::N, "b", b, SA::N);
       tr.tick(k);
-      if (k < 1 && OP == MUL && SA::N == 4) {
+      if (k < 1 && SA::N == 4) {
         Ops o, e;
         opsAdd(o, "a", a, SA::N);
         opsAdd(o, "b", b, SA::N);
@@ -639,6 +638,13 @@ namespace c04 {
       put(vb, b);
       T got = rm::dot(va, vb);
       judgeDotLike(tr, k, "value", got, a, b, plus, N, C04_OPS(opsAdd(o, "a", a, N); opsAdd(o, "b", b, N)), std::is_integral<T>());
+      if (k < 1 && N == 3) {
+        Ops o, e;
+        opsAdd(o, "a", a, N);
+        opsAdd(o, "b", b, N);
+        opsAdd(e, "library_result", &got, 1);
+        sampleCase(tr, o, e);
+      }
       tr.tick(k);
     }
   }
